@@ -132,7 +132,7 @@ CHECKS = {
         technique="translation validation in non-linear integer/real arithmetic (z3): library result vs reference semantics for ALL positive integer bindings; parser vs Python's grammar on all token strings up to a length bound",
         text=("For ~4k expression trees over + - * // / % neg floor ceil trunc min max (ints on either side) the real operator overloads, simplify(), partial evaluate(), str(), the parser and "
               "serialize_dimension_into are run and their SymPy results proved equal (also for rounded quotients whose divisor is a difference of dimensions; complete bindings must return plain ints) to an independent exact semantics for every binding of the symbols to integers >= 1; every string of <= 5 tokens that "
-              "Python accepts over the documented grammar is parsed and proved to have Python's arithmetic meaning. Counterexample bindings are replayed with exact Fractions."),
+              "Python accepts over the documented grammar (plus a targeted family of 6-8 token chains of same-precedence operators ending in a negated operand) is parsed and proved to have Python's arithmetic meaning. Counterexample bindings are replayed with exact Fractions."),
         note=("Trusted: z3; the SymPy->z3 translation (validated at start-up against evaluate()); SymPy's exact rational arithmetic in the replay. Queries z3 cannot decide over all integers "
               "(nested symbolic-by-symbolic division) are decided for bindings 1..24 and counted separately in the evidence."),
     ),
